@@ -62,7 +62,7 @@ def acceptable(coord, n, tol, wrap):
     return lo, hi
 
 
-def check_cells(variant, lon, lat, got_ix, got_iy, nx, ny, tol, probs, what, check_cols=True):
+def check_cells(variant, lon, lat, got_ix, got_iy, nx, ny, tol, probs, what, check_cols=True, polar_exempt=False):
     v = (math.pi / 2 - lat) / math.pi * ny
     lo, hi = acceptable(v, ny, tol * ny, False)
     lo = np.clip(lo, 0, ny - 1)
@@ -80,6 +80,10 @@ def check_cells(variant, lon, lat, got_ix, got_iy, nx, ny, tol, probs, what, che
     seam = (u < tol * nx) | (nx - u < tol * nx)
     ok |= seam & ((got_ix == 0) | (got_ix == nx - 1))
     ok |= (got_ix == np.clip(lo, 0, nx - 1)) & (lo >= nx)  # u == nx exactly -> wraps to column 0 handled by seam; keep clip case
+    if polar_exempt:
+        # after a frame rotation the longitude of a point within 1e-5 rad of the frame's pole is numerically undetermined
+        # (rounding of order 1e-16 / distance): only the row is demanded there
+        ok |= np.abs(lat) > math.pi / 2 - 1e-5
     bad2 = ~ok
     if bad2.any():
         j = np.argwhere(bad2)[0][0]
@@ -150,6 +154,25 @@ def run_case(spec, workdir):
             others = [getattr(samplers, v)(data) for v in VARIANTS if v != variant]
             R.choice(others)(np.zeros((1, 2)), np.zeros((1, 2)))
         inputs = [gen_inputs(R, rng, spec["npts"], ny, nx, False)] + grids
+        if rotated:
+            # points at and within 1e-12 .. 1e-6 rad of the poles of the ROTATED frame (where |z| of the rotated unit vector
+            # reaches 1), and on its longitude seam, expressed in ICRS
+            from astropy import units as u_
+            from astropy.coordinates import SkyCoord as SC_
+
+            fr = "galactic" if variant == "plate_carree_galactic_sampler" else "barycentrictrueecliptic"
+            offs = np.array([0.0, 1e-12, 1e-9, 2e-8, 1e-7, 1e-6, 1e-3])
+            pl_lon = np.tile(np.linspace(0, TWOPI, 9)[:-1], len(offs))
+            pl_lat = np.repeat(math.pi / 2 - offs, 8)
+            both_lat = np.concatenate([pl_lat, -pl_lat, rng.uniform(-1.5, 1.5, 16)])
+            both_lon = np.concatenate([pl_lon, pl_lon, np.repeat([0.0, math.pi], 8) + rng.choice([0.0, 1e-12, -1e-12], 16)])
+            sc_ = SC_(both_lon * u_.rad, both_lat * u_.rad, frame=fr).icrs
+            k_ = (len(both_lon) // 4) * 4
+            inputs.append((np.array(sc_.ra.rad)[:k_].reshape(4, -1), np.array(sc_.dec.rad)[:k_].reshape(4, -1)))
+        if si == 1:
+            # one BIG two-dimensional request (a whole map resampled in one call)
+            bl, bb = rng.uniform(-math.pi, 3 * math.pi, (700, 420)), np.arcsin(rng.uniform(-1, 1, (700, 420)))
+            inputs.append((bl, bb))
         for (lon, lat) in inputs:
             out = np.asarray(f(lon, lat))
             npts += lon.size
@@ -180,7 +203,7 @@ def run_case(spec, workdir):
                 else:
                     e = sc.barycentrictrueecliptic
                     l2, b2 = e.lon.rad, e.lat.rad
-            check_cells(variant, l2, b2, gix, giy, nx, ny, tol, probs, variant, check_cols=(variant != "plate_carree_ecliptic_sampler"))
+            check_cells(variant, l2, b2, gix, giy, nx, ny, tol, probs, variant, check_cols=(variant != "plate_carree_ecliptic_sampler"), polar_exempt=rotated)
             # periodicity
             k = R.choice([-3, -2, -1, 1, 2, 3])
             out2 = np.asarray(f(lon + TWOPI * k, lat))
@@ -191,10 +214,11 @@ def run_case(spec, workdir):
                 sub = diff
                 pb = []
                 check_cells(variant, np.asarray(l2)[sub], np.asarray(b2)[sub], (cell2 % nx)[sub], (cell2 // nx)[sub], nx, ny, max(tol, 1e-7), pb,
-                            "%s (lon%+d*2pi)" % (variant, k), check_cols=(variant != "plate_carree_ecliptic_sampler"))
+                            "%s (lon%+d*2pi)" % (variant, k), check_cols=(variant != "plate_carree_ecliptic_sampler"), polar_exempt=rotated)
                 if variant == "plate_carree_ecliptic_sampler" and not pb:
                     # columns unspecified, but periodicity still demands the same column up to a boundary tie: compare directly
                     dc = np.abs((cell2 % nx)[sub] - (cell % nx)[sub])
+                    dc = np.where(np.abs(np.asarray(b2)[sub]) > math.pi / 2 - 1e-5, 0, dc)  # longitude undetermined at the frame's poles
                     if ((dc > 1) & (dc < nx - 1)).any():
                         pb.append("%s map %dx%d: lookup at lon%+d*2pi names a column %d cells away" % (variant, ny, nx, k, int(dc.max())))
                 probs += pb
